@@ -47,8 +47,9 @@ var c11Kinds = []string{"add", "add", "add", "add", "seen", "seen", "remove", "r
 
 func init() {
 	register(&Prop{
-		ID:    "C11",
-		Level: "fault_enumeration",
+		ID:          "C11",
+		EvalCounter: "probe.crash_points",
+		Level:       "fault_enumeration",
 		Gen: func(w *simrt.Choices, tier string, avoid map[string]bool) Case {
 			cfg := StoreCfg{Backend: "file", Cap: []int{0, 0, 1, 2, 3}[w.Choose(5)]}
 			h := &storeHistory{Cfgs: []StoreCfg{cfg}}
